@@ -8,8 +8,12 @@ TECH_HEVAL = ('symbolic execution of the engine\'s MIR (regenerated from /repo o
               'driver schedule, faults and abort points split exhaustively with state subsumption; counterexamples replayed on the compiled crate')
 
 NOTE_HEVAL = ('Trusted: rustc MIR dump as semantics; hand-written std/petgraph models (differentially validated against the compiled crate on '
-              'every run); z3. Bounds: graphs <=3 jobs complete + curated 4-job shapes, one evaluation from every well-formed history '
-              '(H[j] present <=> H[j!!!] present, shown inductive); a counterexample counts only after it reproduces natively.')
+              'every run, the extended ones by the API zoo in setup); z3 (every n-th query re-decided by cvc5). Bounds (each listed universe explored '
+              'completely; evidence repeats them): all graphs <=3 jobs from every well-formed symbolic history (H[j] present <=> H[j!!!] present, shown '
+              'inductive) under string comparison and under an arbitrary, possibly consumer-dependent equivalence relation; sampled 4-job graphs from '
+              'the same history; H-BUILT universes (completely built project, symbolic result presence / outputs): curated 4-7 job shapes, sampled '
+              '(thorough: all) 4-job graphs and chain-family shapes up to 6 jobs. A counterexample counts only after it reproduces natively; whether '
+              'its starting history can be produced by earlier evaluations is not searched (DESIGN.md section 14).')
 
 CLAIMED = {
     'C19': ('H-SIZE', 'The engine\'s real MIR is executed at concrete large sizes (600 jobs quick, 4000 thorough; chain, layered, fan-out/fan-in; periodic kind patterns) through every named cascade shape: first build, up-to-date re-evaluation, single invalidation at either end (symbolic presence of the first/last result and symbolic new values, so z3 decides which cascades exist), root failure, abort. Every monitor of the single-evaluation harness runs at every step (no internal error incl. the depth guard, progress, report consistency, and the up-to-date / only-necessary-work oracles as z3 validity queries per job). Honest limit: the solver decides only a handful of atoms per run; what decides is executing the real code where an internal limit would bite.', '7.19'),
@@ -31,7 +35,7 @@ CLAIMED = {
     'C15': ('H-EVAL+H-ORDER', 'The C03/C04/C06/C07/C11/C16 oracles and the C14 pairwise check under S-rel (and S-prod in thorough): the comparison is an uninterpreted equivalence relation (kernel of an uninterpreted function), so every obligation is decided for all comparison functions at once; only violations that do not also occur under plain string inequality are attributed to C15.', '7.15'),
     'C18': ('H-HIST+H-EVAL', 'Universes with symbolic stale records (absent jobs, removed dependencies, superseded multi-output ids incl. plain->multi and multi->plain, production input-name convention): per record of the input history a validity query decides kept-unchanged / dropped on every completed path (faults and aborts included); every returned key is in the input history or describes the current graph.', '7.18'),
     'C20': ('H-EVAL', 'At every distinct reachable engine state of the exploration every illegal call on every job (start, success, failure, cleanup acknowledgement, second startup) is executed on a copy: result must be APIError and the complete engine state and all query results must be exactly unchanged.', '7.20'),
-    'C17': ('H-EVAL', 'Report-consistency invariants at every quiescent state of every path (ready/running/failed/upstream-failed/cleanup/finished vs driver events and per-job states).', '7.17'),
+    'C17': ('H-EVAL', 'Report-consistency invariants at every quiescent state of every path (ready/running/failed/upstream-failed/cleanup/finished vs driver events and per-job states), and a write barrier on NodeInfo.state inside every call: each MIR assignment to a JobState place is checked for kind change, finished -> unfinished and success -> failed/upstream-failed/aborted at the instruction where it happens.', '7.17, 14'),
 }
 
 
